@@ -145,6 +145,7 @@ class Table:
         self.geos = {(g["side"], g["i"]): g for g in geos}
         self.tabs = {(t["fi"], tuple(t["ks"]), t["d"], t["r"]): t for t in tabs}
         self._exp = {}
+        self.seen = set()           # prefixes of behaviours whose comparisons have been made in this run
 
     def exp(self, fi, ks, d, r):
         from cuqiverif.modelgeom_real import rvec, rmat, ivec, imat
@@ -216,6 +217,31 @@ def _checks_class():
         cands = ()          # the contents an object may legitimately reflect now (sub-sequences of the edits made so far)
         asbuilt = None      # what the deviations describing the tree as built predict for the object looked at: {f, a, g, t}
         deep = False        # the object looked at is (or was built from) a deep copy
+
+        def fwd_adj(self, obj, name, e, d, r, transposed=False, Fw=None):
+            """as _SeqChecks.fwd_adj; Fw: the columns of the map that must be H+ F G, when they have been computed already
+            (they decided WHICH content `e` belongs to, so they are that matrix).  Returns the columns of the other map."""
+            if Fw is None:
+                return super().fwd_adj(obj, name, e, d, r, transposed=transposed)
+            from cuqiverif.props.c07 import _try, _columns
+            M = e["matrix"]
+            f_name, a_name = ("adjoint", "forward") if transposed else ("forward", "adjoint")
+            fx, err = _try(lambda: getattr(obj, f_name)(e["x"]))
+            if err is not None or not close(fx, e["fwd_x"]):
+                self.bad(name + f_name, d, r, "raised" if err is not None else "other",
+                         "%s%s(x) is not H+ F G x although %s(e_i) are its columns" % (name, f_name, f_name), e["fwd_x"],
+                         repr(err) if err is not None else fx)
+            ay, err = _try(lambda: getattr(obj, a_name)(e["y"]))
+            Ad = _columns(getattr(obj, a_name), M.shape[0]) if err is None else err
+            if err is not None or isinstance(Ad, Exception):
+                self.bad(name + a_name, d, r, "raised", "%s%s raised" % (name, a_name), None, repr(err if err is not None else Ad))
+                return None
+            if not (close(ay, e["adj_y"]) and close(Ad, M.T)):
+                coded = close(ay, e["adj_y_coded"]) and close(Ad, e["coded_adj_matrix"])
+                self.bad(name + a_name, d, r, "via_fun2par" if coded else "other",
+                         "%s%s is not the transpose of H+ F G for the current geometries" % (name, a_name)
+                         + (" (it is the composition fun2par . F* . par2fun)" if coded else ""), M.T, Ad)
+            return Ad
 
         def bad(self, obs, d, r, cls, what, expected, observed):
             if "tab" not in self.case:          # the stored case is self-contained (--replay): the table entries it needs
@@ -296,61 +322,72 @@ def check_behaviour(ctx, case, table=None):
     def read_outs(o, with_matrix, ab):
         """all comparisons on object o (and on the transposed model the user holds of it)"""
         d, r = pairs[o]
-        m = objs[o]
         K.others = ()
         K.cands = cands()
         K.deep = o in deep
-        for who, obj, transposed, pre in ((WHO[o], m, False, None), (WHO[o] + ".held_T", held.get(o), True, ab and ab["t"])):
+        for who, obj, transposed, pre in ((WHO[o], objs[o], False, ab and ab["m"]), (WHO[o] + ".held_T", held.get(o), True, ab and ab["t"])):
             if obj is None:
                 continue
-            K.who = who
-            K.asbuilt = (ab and ab["m"]) if not transposed else pre
-            ks, val = content_of(obj.adjoint if transposed else obj.forward, d, r)
+            K.who, K.asbuilt = who, pre
+            f_name, a_name = ("adjoint", "forward") if transposed else ("forward", "adjoint")
+            own, built = ("T_", "TT_") if transposed else ("", "T_")
+            # which content of the matrix the object shows: read off the map that must be H+ F G
+            ks, Fw = content_of(getattr(obj, f_name), d, r)
             if ks is None:
                 W.ks = ()
-                K.bad("T_adjoint" if transposed else "forward", d, r, "raised" if isinstance(val, Exception) else "other",
-                      "%s is not H+ F G for the matrix as given nor after any of the in-place edits %r" %
-                      ("adjoint of the held transposed model" if transposed else "forward", applied), W.exp(d, r, ())["matrix"],
-                      repr(val) if isinstance(val, Exception) else val)
+                K.bad(own + f_name, d, r, "raised" if isinstance(Fw, Exception) else "other",
+                      "%s%s is not H+ F G for the matrix as given nor after any of the in-place edits %r"
+                      % ("held T." if transposed else "", f_name, applied), W.exp(d, r, ())["matrix"], repr(Fw) if isinstance(Fw, Exception) else Fw)
                 continue
             W.ks = ks
             if applied and not transposed:
-                obs["%s/%s" % (fmt, "followed" if ks == tuple(applied) else "not_followed:%s" % ",".join(ks))] = \
-                    obs.get("%s/%s" % (fmt, "followed" if ks == tuple(applied) else "not_followed:%s" % ",".join(ks)), 0) + 1
+                k2 = "%s/%s" % (fmt, "followed" if ks == tuple(applied) else "not_followed(shows %s)" % ",".join(ks))
+                obs[k2] = obs.get(k2, 0) + 1
             e = W.exp(d, r)
-            pr = e["matrix"].shape[0]
-            if not transposed:
-                K.fwd_adj(m, "", e, d, r)
-                # the transposed model built NOW
-                try:
-                    T = m.T
-                except Exception as ex:  # noqa: BLE001
-                    K.bad("T", d, r, "raised", ".T raised", None, repr(ex))
-                    T = None
-                if T is not None:
-                    K.fwd_adj(T, "T_", e, d, r, transposed=True)
-                    Tf = _columns(T.forward, pr)
-                    K.matrix_of(T, "T_", e, d, r, None, transposed=True, Tf=None if isinstance(Tf, Exception) else Tf)
-                if with_matrix:
-                    K.matrix_of(m, "get_", e, d, r, None)
-            else:
-                K.fwd_adj(obj, "T_", e, d, r, transposed=True)
-                try:
-                    tt = obj.T
-                except Exception as ex:  # noqa: BLE001
-                    K.bad("TT", d, r, "raised", ".T.T raised", None, repr(ex))
-                    tt = None
-                if tt is not None:
-                    K.fwd_adj(tt, "TT_", e, d, r)
-                    K.matrix_of(tt, "TT_", e, d, r, None)
-                if with_matrix:
-                    Tf = _columns(obj.forward, pr)
-                    K.matrix_of(obj, "T_", e, d, r, None, transposed=True, Tf=None if isinstance(Tf, Exception) else Tf)
+            # ... then everything else must be the specification's value FOR THAT content
+            Ad = K.fwd_adj(obj, own, e, d, r, transposed=transposed, Fw=Fw)
+            try:
+                T = obj.T                        # the transposed model built NOW
+            except Exception as ex:  # noqa: BLE001
+                K.bad(built[:-1], d, r, "raised", "%s.T raised" % ("held T" if transposed else ""), None, repr(ex))
+                T = None
+            if T is not None:
+                Tf = K.fwd_adj(T, built, e, d, r, transposed=not transposed)
+                K.matrix_of(T, built, e, d, r, None, transposed=not transposed, Tf=None if transposed else Tf)
+            if with_matrix:
+                K.matrix_of(obj, "T_" if transposed else "get_", e, d, r, None, transposed=transposed, Tf=Ad if transposed else None)
+
+    def touch(o):
+        """first-use effects only (an implementation may keep things at the first call): one call of each, nothing compared"""
+        d, r = pairs[o]
+        e = W.exp(d, r, ())
+        for obj, xin, yin in ((objs[o], e["x"], e["y"]), (held.get(o), e["y"], e["x"])):
+            if obj is not None:
+                _try(lambda: obj.forward(xin))
+                _try(lambda: obj.adjoint(yin))
+                _try(lambda: obj.T.forward(yin))
+
+    seen = table.seen
+
+    def after(prefix, qs, last, asked, ab):
+        """after EVERY action: the read-outs of EVERY object (get_matrix() where the action asked for it, and at the end).  The
+        behaviours are the paths of a tree: the comparisons after a prefix are made by the first behaviour that has it."""
+        if last or prefix not in seen:
+            seen.add(prefix)
+            for q in qs:
+                read_outs(q, last or q in asked, ab[q - 1] if ab else None)
+        else:
+            for q in qs:
+                touch(q)
+                if q in asked:
+                    _try(lambda: objs[q].get_matrix())
 
     with warnings.catch_warnings():
         warnings.simplefilter("ignore")
-        read_outs(1, False, None)                # as constructed (also fills whatever the implementation keeps at first use)
+        prefix = key.rsplit("/", 1)[0] + "/"
+        after(prefix, [1], False, (), None)      # as constructed (also fills whatever the implementation keeps at first use)
         steps = beh["steps"]
+        names = key.rsplit("/", 1)[1].split(".")
         for i, st in enumerate(steps):
             a, o = st["a"], st["o"]
             last = i == len(steps) - 1
@@ -403,7 +440,7 @@ def check_behaviour(ctx, case, table=None):
                     return
             elif a[0] == "E":
                 route, kind = a[1], a[2:]
-                variant = _h(key, i)
+                variant = _h(prefix, names[i])
                 if route == "U":
                     buf = M0
                 else:
@@ -426,9 +463,8 @@ def check_behaviour(ctx, case, table=None):
             pairs = {q + 1: tuple(p) for q, p in enumerate(st["pairs"])}
             if set(pairs) != set(objs):
                 raise MachineryError("SEQE step %r: the logged pairs do not fit the objects of the replay" % (st,))
-            # after EVERY action: the read-outs of EVERY object (get_matrix() where the action asked for it, and at the end)
-            for q in sorted(objs):
-                read_outs(q, last or q in asked, ab[q - 1] if ab else None)
+            prefix += names[i] + "."
+            after(prefix, sorted(objs), last, asked, ab)
             ctx.facets["seqe_action_" + (a if a[0] != "E" else a[:2])] = ctx.facets.get("seqe_action_" + (a if a[0] != "E" else a[:2]), 0) + 1
     if beh["ep"] == "E2":
         ctx.facets["seqe_copy_" + beh["ck"]] = ctx.facets.get("seqe_copy_" + beh["ck"], 0) + 1
@@ -509,7 +545,7 @@ def run_edit(ctx, lin):
         check_behaviour(ctx, {"kind": "seqe", "beh": b}, table)
     # vacuity guards
     if not ctx.violations:
-        for a in ("G", "T", "SD", "SR", "EU", "EG", "C"):
+        for a in sorted({"C" if st["a"] == "C" else st["a"][:2] for b in behs for st in b["steps"]} | {"G", "T", "SD", "EU", "EG", "C"}):
             if not ctx.facets.get("seqe_action_" + a) and not ctx.observations.get("seq_assignment_refused"):
                 raise MachineryError("SEQE replay never executed action %s" % a)
         for ck in ("call", "copy", "deepcopy"):
